@@ -53,6 +53,27 @@ def Definition.descs : Definition → List StringValue
   | .inputObjectTypeExtension _ _ fields _ => fields.flatMap InputValueDefinition.descs
   | _ => []
 
+/-- the field definitions of an object / interface type definition or extension -/
+def Definition.fdefs : Definition → List FieldDefinition
+  | .objectTypeDefinition _ _ _ _ fields _ => fields
+  | .interfaceTypeDefinition _ _ _ fields _ => fields
+  | .objectTypeExtension _ _ _ fields _ => fields
+  | .interfaceTypeExtension _ _ fields _ => fields
+  | _ => []
+/-- the enum value definitions of an enum type definition or extension -/
+def Definition.evdefs : Definition → List EnumValueDefinition
+  | .enumTypeDefinition _ _ _ values _ => values
+  | .enumTypeExtension _ _ values _ => values
+  | _ => []
+/-- the input value definitions of a definition: input fields, arguments of a directive definition, and the argument
+    definitions of its field definitions -/
+def Definition.ivdefs (x : Definition) : List InputValueDefinition :=
+  (match x with
+   | .inputObjectTypeDefinition _ _ _ fields _ => fields
+   | .inputObjectTypeExtension _ _ fields _ => fields
+   | .directiveDefinition _ _ args _ _ => args
+   | _ => []) ++ x.fdefs.flatMap (·.arguments)
+
 end PyGql.Ast
 
 namespace PyGql.Spec
@@ -298,5 +319,77 @@ theorem definition_descs (x : Definition) (w : StringValue) (h : w ∈ x.descs) 
     obtain ⟨_, h1⟩ := inputValues_descs fields w h
     simp only [definitionV]; apply SubL.node; subl
   | _ => cases h
+
+/-! ### members: field definitions, enum values, input values -/
+
+theorem definition_fdefs (fl : Flags) (x : Definition) (w : FieldDefinition) (h : w ∈ x.fdefs) :
+    Item.Sub (fieldDefinitionV w) (definitionV x) ∧ (wfDefinition fl x = true → wfFieldDefinition w = true) := by
+  cases x with
+  | objectTypeDefinition desc name ifs dirs fields loc =>
+    have h : w ∈ fields := h
+    have h1 : SubL (fieldDefinitionV w) (blockV fieldDefinitionV fields) := SubL.block fieldDefinitionV h .refl
+    exact ⟨by simp only [definitionV]; apply SubL.node; subl,
+      fun hh => all_mem (by simp [wfDefinition] at hh; simpa using hh.2) h⟩
+  | interfaceTypeDefinition desc name dirs fields loc =>
+    have h : w ∈ fields := h
+    have h1 : SubL (fieldDefinitionV w) (blockV fieldDefinitionV fields) := SubL.block fieldDefinitionV h .refl
+    exact ⟨by simp only [definitionV]; apply SubL.node; subl,
+      fun hh => all_mem (by simp [wfDefinition] at hh; simpa using hh.2) h⟩
+  | objectTypeExtension name ifs dirs fields loc =>
+    have h : w ∈ fields := h
+    have h1 : SubL (fieldDefinitionV w) (blockV fieldDefinitionV fields) := SubL.block fieldDefinitionV h .refl
+    exact ⟨by simp only [definitionV]; apply SubL.node; subl,
+      fun hh => all_mem (by simp [wfDefinition] at hh; simpa using hh.1.2) h⟩
+  | interfaceTypeExtension name dirs fields loc =>
+    have h : w ∈ fields := h
+    have h1 : SubL (fieldDefinitionV w) (blockV fieldDefinitionV fields) := SubL.block fieldDefinitionV h .refl
+    exact ⟨by simp only [definitionV]; apply SubL.node; subl,
+      fun hh => all_mem (by simp [wfDefinition] at hh; simpa using hh.1.2) h⟩
+  | _ => cases h
+
+theorem definition_evdefs (fl : Flags) (x : Definition) (w : EnumValueDefinition) (h : w ∈ x.evdefs) :
+    Item.Sub (enumValueDefinitionV w) (definitionV x) ∧ (wfDefinition fl x = true → wfEnumValueDefinition w = true) := by
+  cases x with
+  | enumTypeDefinition desc name dirs values loc =>
+    have h : w ∈ values := h
+    have h1 : SubL (enumValueDefinitionV w) (blockV enumValueDefinitionV values) := SubL.block enumValueDefinitionV h .refl
+    exact ⟨by simp only [definitionV]; apply SubL.node; subl,
+      fun hh => all_mem (by simp [wfDefinition] at hh; simpa using hh.2) h⟩
+  | enumTypeExtension name dirs values loc =>
+    have h : w ∈ values := h
+    have h1 : SubL (enumValueDefinitionV w) (blockV enumValueDefinitionV values) := SubL.block enumValueDefinitionV h .refl
+    exact ⟨by simp only [definitionV]; apply SubL.node; subl,
+      fun hh => all_mem (by simp [wfDefinition] at hh; simpa using hh.1.2) h⟩
+  | _ => cases h
+
+theorem fieldDefinition_arguments (fd : FieldDefinition) (w : InputValueDefinition) (h : w ∈ fd.arguments) :
+    Item.Sub (inputValueV w) (fieldDefinitionV fd) ∧ (wfFieldDefinition fd = true → wfInputValue w = true) := by
+  have h1 : SubL (inputValueV w) (groupV .parenL .parenR inputValueV fd.arguments) := SubL.group _ _ inputValueV h .refl
+  unfold fieldDefinitionV
+  simp only [wfFieldDefinition, Bool.and_eq_true]
+  exact ⟨by apply SubL.node; subl, fun hh => all_mem hh.1.1 h⟩
+
+theorem definition_ivdefs (fl : Flags) (x : Definition) (w : InputValueDefinition) (h : w ∈ x.ivdefs) :
+    Item.Sub (inputValueV w) (definitionV x) ∧ (wfDefinition fl x = true → wfInputValue w = true) := by
+  unfold Definition.ivdefs at h
+  rcases List.mem_append.1 h with h | h
+  · cases x with
+    | inputObjectTypeDefinition desc name dirs fields loc =>
+      have h1 : SubL (inputValueV w) (blockV inputValueV fields) := SubL.block inputValueV h .refl
+      exact ⟨by simp only [definitionV]; apply SubL.node; subl,
+        fun hh => all_mem (by simp [wfDefinition] at hh; simpa using hh.2) h⟩
+    | inputObjectTypeExtension name dirs fields loc =>
+      have h1 : SubL (inputValueV w) (blockV inputValueV fields) := SubL.block inputValueV h .refl
+      exact ⟨by simp only [definitionV]; apply SubL.node; subl,
+        fun hh => all_mem (by simp [wfDefinition] at hh; simpa using hh.1.2) h⟩
+    | directiveDefinition desc name args locations loc =>
+      have h1 : SubL (inputValueV w) (groupV .parenL .parenR inputValueV args) := SubL.group _ _ inputValueV h .refl
+      exact ⟨by simp only [definitionV]; apply SubL.node; subl,
+        fun hh => all_mem (by simp [wfDefinition] at hh; simpa using hh.1.1) h⟩
+    | _ => cases h
+  · obtain ⟨fd, hfd, hw⟩ := mem_flatMap' h
+    obtain ⟨a1, a2⟩ := definition_fdefs fl x fd hfd
+    obtain ⟨b1, b2⟩ := fieldDefinition_arguments fd w hw
+    exact ⟨b1.trans a1, fun hh => b2 (a2 hh)⟩
 
 end PyGql.Spec
